@@ -10,6 +10,9 @@ REALS = ("ValueType is modelled by exact reals (type R): every 'equals its defin
          "the size and growth of IEEE rounding error is NOT decided by this check")
 
 UNITS = {
+    "ma_instance": dict(tpl="ma_instance.rs.tpl", variants=False, doc="the crate's own MA / MAInstance satisfy the MovingAverageConstructor / MovingAverage trait contract the generic indicators are verified against; MovingAverage facts for all 15 kinds"),
+    "smm_serde": dict(tpl="smm_serde.rs.tpl", doc="methods::SMM hand-written Deserialize (sorted buffer and middle positions rebuilt from the window)"),
+    "ma_dispatch": dict(tpl="ma_dispatch.rs.tpl", variants=False, doc="helpers::{MA, MAInstance}: init / ma_period / ma_type / next dispatch to the wrapped kind"),
     "ind_trend": dict(tpl="ind_trend.rs.tpl", doc="indicators::TrendStrengthIndex (signal 2 as implemented; see the C06 known finding)"),
     "hlc": dict(tpl="hlc.rs.tpl", doc="indicators::HLC (the high/low/close snapshot) and Candle::from"),
     "ind_cmo": dict(tpl="ind_cmo.rs.tpl", doc="indicators::ChandeMomentumOscillator"),
@@ -75,6 +78,7 @@ KANI_GROUPS = {
             dict(name="vk_ema_recurrence_3steps", kind="bounded(EMA(3), 3 steps, integer inputs in -8..=8)", timeout=900, tier="thorough", props=["C03"], witness_units=["ema"], witness_fns=["EMA::", "DMA::", "TMA::", "DEMA::", "TEMA::", "WSMA::"]),
             dict(name="vk_vidya_recurrence_4steps", kind="bounded(Vidya(2), 4 steps, integer inputs in -8..=8)", timeout=900, tier="thorough", props=["C03"], witness_units=["derived_window"], witness_fns=["Vidya::"]),
             dict(name="vk_sequence_apply_is_stream", kind="bounded(Change(1), 4 inputs in -8..=8)", timeout=300, props=["C09"], witness_units=["combinators"], witness_fns=["seq_apply", "apply"]),
+            dict(name="vk_sequence_apply_is_stream_odd", kind="bounded(Change(1), 3 inputs then a 1-element chunk, in -8..=8)", timeout=300, props=["C09"], witness_units=["combinators"], witness_fns=["seq_apply", "apply"]),
             dict(name="vk_method_new_apply_is_stream", kind="bounded(Change(1), 4 inputs in -8..=8)", timeout=300, props=["C09"], witness_units=["combinators"], witness_fns=["new_apply", "seq_apply"]),
             dict(name="vk_method_new_fn_is_stream", kind="bounded(Change(1), 3 inputs in -8..=8)", timeout=300, props=["C09"], witness_units=["combinators"], witness_fns=["new_fn"]),
             dict(name="vk_vidya_no_overshoot_3steps", kind="bounded(Vidya(3), 3 steps over {0,1,2})", timeout=600, props=["C12"], witness_units=["derived_window"], witness_fns=["Vidya::"]),
@@ -85,6 +89,7 @@ KANI_GROUPS = {
         harnesses=[
             dict(name="vk_pivot_reversal_silent_without_pivot", kind="bounded(concrete strictly rising stream, 4 candles)", timeout=300, props=["C06"]),
             dict(name="vk_trend_strength_signal2_sign", kind="bounded(concrete stream, 5 candles)", timeout=600, props=["C06"]),
+            dict(name="vk_dyn_forwarding_momentum_index", kind="bounded(MomentumIndex(2,1) through dyn dispatch, 3 symbolic steps)", timeout=300, props=["C11"]),
             dict(name="vk_pivot_reversal_low_pivot_buys", kind="bounded(concrete stream with one low pivot, 4 candles)", timeout=300, props=["C06"]),
         ]),
     "renko": dict(
@@ -110,6 +115,8 @@ KANI_GROUPS = {
             dict(name="vk_highest_index_l3", kind="bounded(L=3, 5 steps)", timeout=600, props=["C04"], witness_units=["highest_lowest_index"]),
             dict(name="vk_lowest_index_l3", kind="bounded(L=3, 5 steps)", timeout=600, props=["C04"], witness_units=["highest_lowest_index"]),
             dict(name="vk_smm_l3", kind="bounded(L=3, 5 steps over a 5-letter alphabet incl. both zeros)", timeout=1800, tier="thorough", props=["C04"]),
+            dict(name="vk_smm_l3_quad", kind="bounded(L=3, 5 steps over {1,2,3,5})", timeout=1800, witness_timeout=1800, tier="thorough", props=["C04"], witness_units=["smm"], witness_fns=["SMM::next", "find_index", "find_insert_index", "next_half", "<unit>"]),
+            dict(name="vk_smm_l3_quad", kind="bounded(L=3, 5 steps over {1,2,3,5}, unsafe_performance)", timeout=1800, witness_timeout=1800, tier="thorough", props=["C04", "C19"], features=["unsafe_performance"], witness_units=["smm"], witness_fns=["SMM::next", "find_index", "find_insert_index", "next_half", "<unit>"]),
             dict(name="vk_smm_l3_guarded", kind="bounded(L=3, 5 steps over a 5-letter alphabet, no negative zero)", timeout=1800, tier="thorough", props=["C04"]),
             dict(name="vk_reversal_upper_l3", kind="bounded((1,1), 6 steps over a 5-letter alphabet)", timeout=600, props=["C14"], witness_units=["reversal"]),
             dict(name="vk_reversal_lower_l3", kind="bounded((1,1), 6 steps over a 5-letter alphabet)", timeout=600, props=["C14"], witness_units=["reversal"]),
@@ -228,7 +235,7 @@ PROPS["C08"] = dict(
                  "methods without a *_const_step lemma in coverage.samples/functions are not covered"],
 )
 PROPS["C10"] = dict(
-    verus=ALL_VERUS,
+    verus=ALL_VERUS + ["ma_dispatch", "hlc"],
     claim=("Every panic site of the extracted functions (assert!/debug_assert!, unwrap, integer overflow, slice indexing, push on an empty window) "
            "is a proof obligation. For each method under contract `new` is verified for EVERY parameter value (its precondition new_req is `true`; "
            "for WMA/HMA it only excludes lengths >= 2^32 that exist under period_type_u64) to return Err for the documented too-small lengths and "
@@ -290,7 +297,7 @@ PROPS["C09"] = dict(
 )
 
 PROPS["C11"] = dict(
-    verus=["indicator_set"] + INDICATOR_UNITS, kani=["result"],
+    verus=["indicator_set"] + INDICATOR_UNITS, kani=["result", "indicators"],
     claim=("IndicatorConfig::set of every shipped indicator (36; the `example` sample excluded) is extracted (its `match name` turned into a str_eq chain "
            "by rule R9) and verified against a contract GENERATED from the struct's public field list: for each public field the named parameter, and "
            "only it, takes the parsed value and Ok is returned; on a parse error or any other name Err is returned and the configuration is unchanged. "
@@ -298,7 +305,8 @@ PROPS["C11"] = dict(
            "min(4, n) values/signals in order and to report exactly those lengths; for the indicators under contract (see C05) next is verified to return "
            "exactly the (values, signals) counts that size() announces."),
     assumptions=["strings are compared by their Seq<char> view (str_eq) and str::parse is an uninterpreted function of the text (abstract parsing)",
-                 "name(), default validity and dyn forwarding (core/indicator/dd.rs) are not covered; the shape claim covers only " + COVERED_INDICATORS],
+                 "name() and default validity are not covered; dyn forwarding (core/indicator/dd.rs: one-line forwarders behind Box<dyn ...>, outside Verus' reach) is exercised by one bounded "
+                 "Kani harness (MomentumIndex through IndicatorConfigDyn/IndicatorInstanceDyn against the static calls), not proved; the shape claim covers all 36 shipped indicators"],
 )
 
 PROPS["C14"] = dict(
@@ -315,13 +323,15 @@ PROPS["C14"] = dict(
 )
 
 PROPS["C05"] = dict(
-    verus=INDICATOR_UNITS + IND_DEPS, kani=["result"],
+    verus=INDICATOR_UNITS + IND_DEPS + ["ma_dispatch", "ma_instance"], kani=["result"],
     claim=("For the indicators under contract (" + COVERED_INDICATORS + "; generic ones for an arbitrary moving-average constructor M) `next` is verified "
            "to return, as its raw values, the documented formula written over the component step relations (e.g. MACD: MA1(src) - MA2(src) and its "
            "signal line MA3(MACD); Bollinger: SMA +- sigma*StDev; Donchian: highest high / lowest low / midpoint), and `init` to seed each component "
            "as documented; with the component contracts of C02-C04 this is the formula on the candle history, by induction over next."),
     assumptions=[REALS, "all 36 shipped indicators are under contract (`example` is a sample, not shipped); generic ones for an arbitrary MovingAverageConstructor M whose "
-                 "instance satisfies the Method/MovingAverage trait contract - the concrete dispatch enum MA/MAInstance (helpers/methods.rs) is NOT under contract",
+                 "instance satisfies the Method/MovingAverage trait contract; the concrete dispatch enum MA/MAInstance (helpers/methods.rs) is verified in unit ma_dispatch to "
+                 "construct and step exactly the wrapped kind (each of the 15 kinds has its own unit); what is NOT machine-checked is that every kind satisfies the "
+                 "extra MovingAverage facts (input_always_ok, within/convex) used by RSI/Stochastic/Keltner ranges - those are proved for SMA, WMA and EMA only (ma_laws)",
                  "TrendStrengthIndex has no published formula: its contract is the regression/correlation expression the code computes over the window sums; "
                  "Kaufman's filtered signal and the ranges of ADX/+DI/-DI are not specified",
                  "methods used through their trait contract only (verified in their own units): TSI, TMA, Momentum/Change, RateOfChange, SWMA, HMA, CCI, LinearVolatility, StDev, Highest, Lowest, ADI, ReversalSignal",
@@ -342,17 +352,20 @@ PROPS["C06"] = dict(
                  "which the detector's position counter saturates (C07/C14 known finding: precondition in_capacity)"],
 )
 PROPS["C12"] = dict(
-    verus=INDICATOR_UNITS + ["ohlcv", "candle_methods", "derived_window", "st_dev", "ema", "indicator_base"], kani=["witness"],
+    verus=INDICATOR_UNITS + ["ohlcv", "candle_methods", "derived_window", "st_dev", "ema", "indicator_base", "mean_abs_dev", "median_abs_dev", "ma_instance"], kani=["witness"],
     claim=("Ideal-arithmetic ranges: proved as extra postconditions — CLV in [-1,1] for low<=close<=high; tr_close and TR >= 0 for high >= low; StDev and "
            "LinearVolatility >= 0; Vidya's CMO factor in [0,1] and its guarded quotient well defined; TSI's guard implies a positive denominator; "
            "RSI in [0,1] for averaging kinds that cannot overshoot (with its debug assertion discharged); Bollinger upper >= middle >= lower; "
            "Donchian and PriceChannel contain the highs/lows they are built from; Aroon lines in (0,1]; Stochastic %K in [0,1] for an ordered candle and both "
            "lines in [0,1] for averaging kinds that cannot overshoot; Keltner upper >= average >= lower while the true ranges fed are non-negative; Envelopes ordered for a non-negative average; "
            "ParabolicSAR reports a SAR on the side of the price opposite to its trend and never lets the next SAR cross the last two candles; MoneyFlowIndex in [0,1] for non-negative volumes; "
-           "ChandeMomentumOscillator in [-1,1] (sums of gains and losses non-negative by the window invariant)."),
+           "ChandeMomentumOscillator in [-1,1] (sums of gains and losses non-negative by the window invariant); ChaikinMoneyFlow in [-1,1] on ordered candles with non-negative volume wherever the "
+           "total volume is positive (pointwise |CLV*volume| <= volume carried as an invariant over both windows); TSI, and with it TrueStrengthIndex and SMIErgodicIndicator's main value, in [-1,1] "
+           "(inductive invariant |EMA(EMA(m))| <= EMA(EMA(|m|)) over the whole history); MeanAbsDev and MedianAbsDev >= 0. 'Averaging kinds that cannot overshoot' is no longer an abstract "
+           "assumption: unit ma_instance proves the MovingAverage range facts for SMA, WMA, RMA, EMA, DMA, TMA, WSMA, SMM, SWMA, TRIMA and Vidya and for the dispatch enum MAInstance, and marks HMA, DEMA, TEMA and "
+           "LinReg as kinds that can overshoot (no range claim)."),
     assumptions=[REALS + ": residue after a flat stretch and non-finite outputs are float behaviour and are NOT decided",
-                 "CMF's range, TSI-based indicators (TrueStrengthIndex, SMIErgodic: |TSI| <= 1 needs |EMA(EMA(m))| <= EMA(EMA(|m|)), an induction over the whole history), MeanAbsDev >= 0, the ranges of ADX/+DI/-DI, "
-                 "RelativeVigorIndex and TrendStrengthIndex are not covered by this check yet"],
+                 "the ranges of ADX/+DI/-DI, RelativeVigorIndex and TrendStrengthIndex, and Kaufman/Ichimoku/ChandeKrollStop 'same range as the source' are not covered by this check"],
 )
 
 PROPS["C17"] = dict(
@@ -377,24 +390,30 @@ PROPS["C18"] = dict(
 )
 
 PROPS["C15"] = dict(
-    verus=["ma_laws", "sma", "wma", "ema", "smm"],
+    verus=["ma_laws", "sma", "wma", "ema", "smm", "ma_instance"],
     claim=("Lemmas over the definitions the code is tied to by C02/C03: SMA and WMA (weights (i+1)/(n(n+1)/2), non-negative, summing to 1) are "
            "affine-equivariant (any a, b, negative a included), range-preserving and additive (superposition) for every length; the EMA recurrence is "
            "affine-equivariant, range-preserving (0 < alpha <= 1) and additive step by step, which carries over to DMA/TMA/RMA/WSMA by composition. "
            "The trait-level facts generic indicators rely on (MovingAverage::convex / within) are proved for SMA, WMA and EMA. "
-           "SMM: range preservation (smm_range: the median lies between the bounds of the window values) over the verified median contract."),
+           "SMM: range preservation (smm_range: the median lies between the bounds of the window values) over the verified median contract. "
+           "Range preservation as a one-step fact (every value the instance holds and every output stay within the bounds of the inputs) is proved in unit ma_instance for SMA, WMA, RMA, EMA, DMA, TMA, WSMA, SMM, SWMA, "
+           "TRIMA and Vidya and lifted to the dispatch enum MAInstance; HMA, DEMA, TEMA and LinReg are not range-preserving (they extrapolate) and are marked so."),
     assumptions=[REALS, "SWMA, TRIMA, HMA, LinReg, Vidya, VWMA, Conv: no law lemmas yet (HMA/TRIMA follow by composition of the WMA/SMA lemmas but that step is not machine-checked)",
                  "MA enum dispatch (MA::init) is not under contract"],
 )
 PROPS["C13"] = dict(
-    verus=["window_serde", "window"], kani=["window"],
+    verus=["window_serde", "window", "smm_serde"], kani=["window"],
     forbid_in_src=[(r"serde\(\s*skip", "every field of the derived impls is serialized")],
     claim=("Window's hand-written Deserialize is extracted (serde glue and error-text construction dropped) and verified: an oversized buffer or an "
            "oldest-index outside the buffer is rejected with Err exactly, never a panic (from_parts's assertions are discharged by the two checks), and "
            "accepted data yields a well-formed window with the same buffer, index and abstract sequence; window_snapshot_roundtrip proves "
-           "serialize-then-deserialize restores the same sequence. All outputs of a method depend on inv-state only (C02-C04), so equal state gives equal futures."),
+           "serialize-then-deserialize restores the same sequence. SMM's hand-written Deserialize (the only other one in the crate: it serializes just the window and "
+           "rebuilds the sorted buffer and the two middle positions) is extracted the same way and verified to reject an empty window with Err and otherwise to "
+           "return an instance that satisfies SMM's full representation invariant over the SAME window (sorted buffer = multiset of the window, middle positions), "
+           "i.e. the state every later `next`/`peek` contract starts from. All outputs of a method depend on inv-state only (C02-C04), so equal state gives equal futures."),
     assumptions=["serde and serde_derive are trusted; derived impls are assumed to serialize every field (backed by a scan for #[serde(skip...)])",
-                 "SMM's hand-written Deserialize (re-sort) is not under contract", "bit-identity of restored floats is serde's"],
+                 "SMM's Deserialize: slice::sort_unstable_by and to_owned().into_boxed_slice() have ASSUMED std contracts (sorted permutation / same elements); "
+                 "the NaN branch of its comparator does not exist in the real model", "bit-identity of restored floats is serde's"],
 )
 
 NOT_BUILT = {}
